@@ -39,6 +39,7 @@ DIRECTED = {
     "empty_object": ["0 fmin", "0 fmax", "0 getfv", "0 getz0v", "0 getmat 0", "0 setallz0 5,5", "0 setz0v 0",
                      "0 setfv 0", "0 hasfz0", "0 resize 0 0 0 2", "0 getmat 1", "0 getfz0v 1", "0 setmat 1 0",
                      "0 resize 0 0 0 1", "conv 0 1 0", "1 dims"],
+    "empty_matrix_to_zin": ["0 init 1 0 0 1", "conv 0 1 10"],
     "mode_switches": ["0 init 4 2 2 2", "0 setz0v 2 10,0 20,0", "0 setfz0 1 1 99,0", "0 getz0 0", "0 getz0v",
                       "0 getfz0v 0", "0 getfz0v 1", "0 setz0 0 5,0", "0 hasfz0", "0 getz0v", "0 setfz0v 0 2 1,0 2,0",
                       "0 setallz0 7,0", "0 getfz0 1 1", "0 setfz0 1 0 3,0", "0 setz0v 2 8,0 9,0", "0 getfz0v 1"],
@@ -48,6 +49,8 @@ DIRECTED = {
 def classify(runner, ops, first):
     """Which single candidate defect of the code as found explains the difference?"""
     script = "\n".join(ops) + "\n"
+    if first.get("model_predicts_fault"):
+        return None          # the repaired model itself predicts this fault: not one of the repaired defects
     for q in ("d4", "d5", "d6", "d40"):
         try:
             d = runner.compare(script, as_found=q)
@@ -205,11 +208,16 @@ def run(ctx):
     # ---------------------------------------------------------------- coverage accounting
     stats(ctx, runner, seqs + ex[:2000] + rnd)
     ctx.extra.pop("_seen", None)
-    ctx.obligation("tie:data_model_vs_implementation", not ctx.violations,
-                   "%d differing sequences" % len(ctx.violations))
-    if not ok and not ctx.violations:
+    new = unknown_violations(ctx)
+    ctx.obligation("tie:data_model_vs_implementation", not new, "%d differing sequences" % len(new))
+    if not ok and not new:
         ctx.unproved("Properties_C15", "Coq build failed: " + getattr(ctx, "_last_coq_log", "")[-400:],
                      "%d random histories, %d exhaustive sequences, corpus" % (len(rnd), len(ex)))
+
+
+def unknown_violations(ctx):
+    known = vplib.load_known()
+    return [v for v in ctx.violations if vplib.match_known(ctx.prop, v.sig, known) is None]
 
 
 def stats(ctx, runner, seqs):
